@@ -755,6 +755,13 @@ func (p *planner) mutants(o node.BlockOpts, b0 *blockchain.Block, heavy bool) []
 	}
 	badTx("module", func(tx *blockchain.Transaction) { tx.Module = "to ken" })
 	badTx("command", func(tx *blockchain.Transaction) { tx.Command = "trans-fer" })
+	// names made of letters / digits that are NOT ASCII (the rule is ^[a-zA-Z0-9]*$, not "Unicode letter or digit"),
+	// each in NFC form so that the codec keeps the bytes
+	badTx("module-cyrillic", func(tx *blockchain.Transaction) { tx.Module = "t\u043eken" })
+	badTx("command-accent", func(tx *blockchain.Transaction) { tx.Command = "transf\u00e9r" })
+	badTx("module-arabic-digit", func(tx *blockchain.Transaction) { tx.Module = "token\u0663" })
+	badTx("command-fullwidth", func(tx *blockchain.Transaction) { tx.Command = "\uff54ransfer" })
+	badTx("module-underscore", func(tx *blockchain.Transaction) { tx.Module = "to_ken" })
 	badTx("sender-key-31", func(tx *blockchain.Transaction) { tx.SenderPublicKey = tx.SenderPublicKey[:31] })
 	badTx("no-signature", func(tx *blockchain.Transaction) { tx.Signatures = []codec.Hex{} })
 	badTx("signature-63", func(tx *blockchain.Transaction) { tx.Signatures[0] = tx.Signatures[0][:63] })
